@@ -136,16 +136,16 @@ func main() {
 	}
 	run := vk.Start(prop)
 
-	nHist := run.Pick(64, 1600)   // library histories
+	nHist := run.Pick(64, 4000)   // library histories
 	histSteps := run.Pick(24, 40) // steps each
 	histPer := run.Pick(4, 12)    // histories per child
-	nConc := run.Pick(48, 1800)   // concurrent cases
+	nConc := run.Pick(48, 4500)   // concurrent cases
 	concPer := run.Pick(6, 20)    // per child
-	nE2E := run.Pick(10, 300)     // e2e children, one history + one http-concurrent scenario each
+	nE2E := run.Pick(10, 720)     // e2e children, one history + one http-concurrent scenario each
 	e2eSteps := run.Pick(30, 50)  //
 	variants := map[string]int{}  // crash-case variants per operation
 	for _, op := range crashOps {
-		variants[op] = run.Pick(3, 60)
+		variants[op] = run.Pick(3, 120)
 	}
 	variants["delete-last"] = run.Pick(1, 4)
 	variants["create-nodir"] = run.Pick(2, 10)
